@@ -75,6 +75,42 @@ def judge(ctx, n, edges, orders, out, one, where):
                       dict(case, observed=one))
 
 
+def find_cycle_model(ctx, topo, thorough):
+    """Beyond the listed properties, never gating: find_cycle (the routine behind
+    the family-cycle warning) against FindCycle.tla.  TLC checks what the routine
+    guarantees, refutes what its docstring promises beyond that, and every answer
+    of the code on the 512 graphs on three vertices must be one the machine can
+    give (successor sets are scanned in any order there)."""
+    consts = {"N": "3", "Graphs": "<- AllGraphs"}
+    _, states = mc.explore(ctx, "FindCycle", "FindCycle machine, 3 vertices, every scan order (outside the listed properties)",
+                           constants=consts, invariants=["ParentEdges", "NoneSound", "FoundWhenReachable"],
+                           properties=["Terminates"], dump=True)
+    if thorough:
+        mc.explore(ctx, "FindCycle", "FindCycle machine, 4 vertices (outside the listed properties)",
+                   constants=dict(consts, N="4"), invariants=["ParentEdges", "NoneSound", "FoundWhenReachable"])
+    for inv in ("IsCycle", "NoneComplete"):
+        res, _ = mc.explore(ctx, "FindCycle", inv, constants=consts, invariants=[inv], expect_violation=True)
+        ctx.note(f"find_cycle (outside the listed properties): {inv} is "
+                 + ("refuted by TLC - the routine can name a non-cycle of an acyclic graph / miss a cycle its first key does not reach"
+                    if not res.ok else "NOT refuted - FindCycle.tla no longer shows the known deviation"))
+    answers = {}
+    for state in states:
+        if state["pc"] in ("none", "list"):
+            key = tuple(frozenset(state["g"][v - 1]) for v in (1, 2, 3))
+            answers.setdefault(key, set()).add(None if state["pc"] == "none" else tuple(state["cycle"]))
+    drift = 0
+    for key, want in sorted(answers.items(), key=repr):
+        graph = {v: set(key[v - 1]) for v in (1, 2, 3)}
+        got = mc.safe(topo.find_cycle, graph)
+        got = got if got is None or isinstance(got, mc.Raised) else tuple(got)
+        if isinstance(got, mc.Raised) or got not in want:
+            drift += 1
+            if drift <= 3:
+                ctx.note(f"drift outside the listed properties: find_cycle({graph}) = {got!r}, FindCycle.tla allows {sorted(want, key=repr)}")
+    ctx.extra["find_cycle"] = {"graphs_replayed": len(answers), "answers_not_allowed_by_the_machine": drift}
+    ctx.stage("beyond: find_cycle")
+
+
 def run(ctx):
     topo, sr = _api()
     thorough = ctx.tier == "thorough"
@@ -187,6 +223,7 @@ def run(ctx):
                       lambda s: [dict(s[0], out=s[0]["out"][:2]), dict(s[1], none=False, out=[1, 2])],
                       what="a missing ordering and an ordering of a cyclic graph")
     ctx.stage("E3")
+    find_cycle_model(ctx, topo, thorough)
 
 
 def replay(path):
